@@ -171,6 +171,16 @@ pub fn check(scn: &Scenario, stats: &mut Stats) -> Vec<Violation> {
                         continue;
                     }
                     let Some(succs) = rp.required_succs(i) else { continue };
+                    // edges stop at exit ecalls (10, 93): decided from the source text, not from the
+                    // analyzer's own notion of "program exit"
+                    if rp.is_exit_ecall(i) && !s.nodes[last[i]].nexts.is_empty() {
+                        out.push(viol(
+                            "I2:edges-stop-at-exit-ecall",
+                            format!("I2:edge-leaves-exit-ecall:{}", ins.ecall_number.unwrap_or(0)),
+                            format!("entropy {e}: the ecall at {}:{} has a7 = {:?} set on the line before it, yet {} has successors {:?}", ins.file, ins.line + 1, ins.ecall_number, at(s, last[i]), s.nodes[last[i]].nexts),
+                        ));
+                        return out;
+                    }
                     // within one source instruction that became two nodes
                     if last[i] != first[i] && !s.nodes[first[i]].nexts.contains(&last[i]) {
                         out.push(viol("I3:no-real-transfer-missing", "I3:missing-edge:inside-expanded-instruction".into(), format!("entropy {e}: {} -> {}", at(s, first[i]), at(s, last[i]))));
